@@ -2,6 +2,7 @@
 from fractions import Fraction
 
 from ..common import rng
+from ..drivers import behaviours
 from ..drivers import programs, targeted
 from ._twin import replay_programs, run_programs
 
@@ -31,6 +32,20 @@ def check(run, tier):
                                       wlmax=16 if nosplit else r.choice([3, 5, 16]), comps=True,
                                       weights={"transfer": 6, "distribute": 2, "aspirate": 1, "dispense": 2, "add": 0, "remove": 0})
         progs.append(p)
+    # specification -> code: behaviours enumerated by TLC on the bounded model, replayed on the implementation
+    for cfg in ("MC_TwinGen_mixed2",) if q else ("MC_TwinGen_mixed2", "MC_TwinGen_mixed3"):
+        mprogs, res = behaviours.generate(cfg, timeout=3000)
+        if not mprogs:
+            run.machinery_errors.append(f"behaviour generation with {cfg} failed: {res.errors[:2]}")
+        run.states += res.distinct
+        run.transitions += res.generated
+        if q and len(mprogs) > 400:
+            # quick tier: a seeded sample of the enumerated behaviours (thorough replays all of them)
+            k = len(mprogs) // 400 + 1
+            mprogs = mprogs[r.randrange(k)::k]
+        run.extra.setdefault("model_behaviours_replayed", 0)
+        run.extra["model_behaviours_replayed"] += len(mprogs)
+        progs += mprogs
     traces = run_programs(run, progs)
     run.extra["events_outside_rational_range"] = sum(1 for t in traces for e in t["events"] if not e.get("cs", True))
 
